@@ -299,8 +299,11 @@ func (m *WireMonitor) serverFrame(wl *wireLink, e *TapEvent, f *tunnelpb.ServerT
 		m.DataFrames++
 		n := len(fr.ResponseMessage.Data)
 		m.chunk(wl, id, n)
-		if handlerEnded {
-			m.v("C13", "frame-after-close", "link %d stream %d: response message emitted after the close frame of a stream its handler ended", wl.link.ID, id)
+		// "After the stream is closed, no other messages should use the given
+		// stream ID" (tunnel.proto): whoever ended the stream, the library
+		// serialises data frames and the close frame on the stream's write lock
+		if st.closes > 0 {
+			m.v("C13", "frame-after-close", "link %d stream %d: response message emitted after the close frame (handler ended the stream: %v)", wl.link.ID, id, handlerEnded)
 		}
 		if st.respRemaining > 0 && !m.w.sendFailedBefore(st.tag, "handler", e.Seq) {
 			m.v("C13", "response-envelope-inside-message", "link %d stream %d: new response message frame while %d bytes of the previous message are outstanding", wl.link.ID, id, st.respRemaining)
@@ -315,8 +318,8 @@ func (m *WireMonitor) serverFrame(wl *wireLink, e *TapEvent, f *tunnelpb.ServerT
 		m.DataFrames++
 		n := len(fr.MoreResponseData)
 		m.chunk(wl, id, n)
-		if handlerEnded {
-			m.v("C13", "frame-after-close", "link %d stream %d: response data emitted after the close frame of a stream its handler ended", wl.link.ID, id)
+		if st.closes > 0 {
+			m.v("C13", "frame-after-close", "link %d stream %d: response data emitted after the close frame (handler ended the stream: %v)", wl.link.ID, id, handlerEnded)
 		}
 		if st.respRemaining <= 0 {
 			m.v("C13", "response-continuation-without-message", "link %d stream %d: continuation frame with no message in progress", wl.link.ID, id)
